@@ -3,6 +3,7 @@
    (every observable change made by the real code under the simulation kernel is a model step). *)
 From Coq Require Import List Arith Bool.
 From LokyV Require Import Model.TokenFlow Proofs.TokenFlowInv Proofs.TokenFlowThm.
+From LokyV Require Import Lib.MapLib Gen.MapPath Proofs.MapThm.
 Import ListNotations.
 
 (* For every reachable state -- any number of tasks, workers and submitting threads, any interleaving at the
@@ -45,3 +46,14 @@ Example C03_example :
   | None => False
   end.
 Proof. vm_compute. repeat split; reflexivity. Qed.
+
+(* map(): _get_chunks, _process_chunk, _chain_from_iterable_of_lists and ProcessPoolExecutor.map are re-read from the source on
+   every run (Gen/MapPath.v instantiates Lib/MapLib.v); for every function, every list of argument tuples and every chunksize the
+   result is the builtin map's (chunksize < 1 raises), given that Executor.map yields the chunk results in submission order *)
+Theorem C03_map : forall (A B : Type) (f : A -> B) (n : nat) (l : list A),
+  pool_map chunksize_guard chunk_slice_size chain_element_ops f n l = if Nat.ltb n 1 then None else Some (map f l).
+Proof. intros. apply pool_map_is_map. Qed.
+Print Assumptions C03_map.
+Theorem C03_map_structure : map_composes_process_chunk_get_chunks_chain = true.
+Proof. reflexivity. Qed.
+Print Assumptions C03_map_structure.
